@@ -8,6 +8,19 @@ positional and named results) and `BIOGEME.calculate_likelihood_and_derivatives`
 abstract case.  The property oracle is independent of both: central finite differences of the REPORTED
 function and gradient, symmetry, BHHH = Σ outer products of the reported per-observation gradients,
 aggregate = Σ per-observation.
+
+Streams (all on generated formulas):
+  db      with a database: per observation / aggregated / named, BIOGEME, every combination of the flags
+          gradient/hessian/bhhh x aggregation x named_results against the all-requested output;
+  nodb    formulas without data variables evaluated WITHOUT a database (aggregated and per observation,
+          with/without Hessian/BHHH, named or not, create_function);
+  clash   one name used for two elementary expressions (parameter named like a column of the database - used
+          in the formula or not -, free and fixed parameter of the same name): either the specification is
+          refused or the reported derivatives are the derivatives of the reported value (every entry point);
+          near-miss names (accepted) go through the full db stream;
+  fdtool  tools.derivatives.findiff_g / findiff_h / check_derivatives and BIOGEME.check_derivatives at points
+          with special coordinates (exactly 0, +-1, inside (-1,1), large): evaluation points and quotients
+          against the Lean model (FinDiff), and the self-check must confirm derivatives that are true.
 """
 
 from __future__ import annotations
@@ -27,8 +40,13 @@ MANIFEST = dict(
     'Hessian entries are derivatives of gradient entries (C02.hess_correct) and the Hessian is symmetric (C02.hess_symm); entry k belongs to '
     'the k-th reported name (C02.entry_name, hess_entry_name); the aggregated gradient is the derivative of the aggregated value '
     '(C02.aggregate_sum); BHHH entry (i,j) = Σ_n g_n[i] g_n[j] and is symmetric (C02.bhhh_def, bhhh_symm); second derivatives are never '
-    'packaged without first ones (C02.package_flags). Tie: differential correspondence with the real engine derivatives (per observation, '
-    'aggregated, named) and finite-difference oracle on the reported function.',
+    'packaged without first ones (C02.package_flags). The literal id of the k-th sorted free parameter is k and belongs to it alone when the '
+    'specification is accepted; a parameter named like a column is refused (C02.literal_ids_follow_names, parameter_named_like_column_refused). '
+    'The finite-difference self-check (tools.derivatives) never uses a zero step (C02.fd_step_ne_zero, fd_step_size, fd_step_sign), is exact on '
+    'affine functions and converges to the derivative (C02.findiff_g_affine, findiff_g_tendsto, findiff_h_tendsto), and its reported '
+    'discrepancy vanishes with the step where the gradient is true (C02.check_derivatives_confirms). Tie: differential correspondence with '
+    'the real engine derivatives (per observation, aggregated, named, with and without a database, every flag combination), with '
+    'IdManager.prepare and with findiff_g/findiff_h/check_derivatives on recorded function values; finite-difference oracle on the reported function.',
     design='DESIGN.md §5 C02',
     technique='Lean 4/Mathlib HasDerivAt proof of a symbolic differentiator + differential correspondence with the engine automatic differentiation',
     note='Partial: the engine\'s hand-written derivative code (cythonbiogeme) is validated against the model, not verified; Float rounding by '
@@ -36,7 +54,7 @@ MANIFEST = dict(
 )
 TRUSTED = ['engine automatic differentiation (cythonbiogeme): validated, not verified', 'Float vs real numbers: tolerances 1e-8 (gradient) / 1e-6 (Hessian)']
 ASSUMPTIONS = ['selectors (Elem keys, ConditionalSum conditions, logit choice/availability) do not depend on free parameters']
-RULE = ('differentiable DAGs over {+,-,*,/,neg,exp,log,power-constant,bioMultSum,bioLinearUtility,LogLogit,Elem,ConditionalSum} with 1-4 parameters '
+RULE = ('streams db / nodb / clash / fdtool; differentiable DAGs over {+,-,*,/,neg,exp,log,power-constant,bioMultSum,bioLinearUtility,LogLogit,Elem,ConditionalSum} with 1-4 parameters '
         '(free and fixed, names whose appearance order differs from the sorted order), 1-4 rows; non-trivial = >= 2 free parameters and depth >= 3')
 SMOOTH = ['plus', 'minus', 'times', 'divide', 'neg', 'exp', 'log', 'powConst', 'multSum', 'linUtil', 'logLogit', 'elem', 'condSum']
 TOL_G = 1e-8
@@ -160,6 +178,8 @@ def real_derivs(case):
     o['named_rows_bhhh_only'] = None if nb.bhhhs is None else [{a: {b: float(v) for b, v in r.items()} for a, r in h.items()} for h in nb.bhhhs]
     root.prepare(db, 0)
     o['names'] = list(root.id_manager.free_betas.names)
+    o['ids'] = [root.id_manager.elementary_expressions.indices.get(nm) for nm in o['names']]
+    o['fixed_names'] = list(root.id_manager.fixed_betas.names)
     root.set_id_manager(None)
     # gradient only / no hessian packaging
     g_only = root.get_value_and_derivatives(betas=d, database=db, gradient=True, hessian=False, bhhh=False, aggregation=True, prepare_ids=True)
@@ -218,7 +238,7 @@ def vec_close(a, b, tol):
     return len(a) == len(b) and all(core.close(x, y, rel=tol, abs_=tol) for x, y in zip(a, b))
 
 
-def check_case(ctx, res, case, fd=True):
+def check_case(ctx, res, case, fd=True, combos=None):
     small = {'nodes': case['nodes'], 'root': case['roots'][0], 'columns': case['columns'], 'rows': case['rows'], 'dict': case.get('dict', {})}
     try:
         o, root, db = real_derivs(case)
@@ -279,8 +299,16 @@ def check_case(ctx, res, case, fd=True):
     bio = o['bio']
     if bio['names'] != names or not core.close(bio['f'], o['F'], rel=1e-10) or not vec_close(bio['g'], o['G'], 1e-9) or not mat_close(bio['h'], o['H'], 1e-8) or not mat_close(bio['b'], o['B'], 1e-8):
         res.violate('BIOGEME.calculate_likelihood_and_derivatives disagrees with the expression-level derivatives', small, bio, {'f': o['F'], 'g': o['G']}, where='BIOGEME.calculate_likelihood_and_derivatives')
+    if o.get('ids') != list(range(nfree)):
+        res.violate('the literal id of the k-th reported free parameter is not k', small, o.get('ids'), list(range(nfree)), where='IdManager.prepare')
+    modes_check(res, small, case, root, db, names, o, W, WH, all_combos() if combos is None else combos)
     if fd:
-        msgs = fd_oracle(case, o, root, db)
+        try:
+            msgs = fd_oracle(case, o, root, db)
+        except Exception as e:  # noqa: BLE001
+            res.violate(f'value / gradient of a differentiable formula cannot be computed next to the point: {core.exc_kind(e)}: {e}'[:300], small, str(e)[:200],
+                        'f, g at every point of the domain', where='get_value_and_derivatives')
+            msgs = []
         gm = [m for m in msgs if m.startswith('gradient')]
         hm = [m for m in msgs if m.startswith('Hessian')]
         if gm:
@@ -318,6 +346,13 @@ def check_case(ctx, res, case, fd=True):
             res.diverge('BHHH (Diff.bhhh vs engine)', small, [fl(r) for r in ans['B']], o['B'], where=W)
 
     ctx.batch.add({'op': 'rows', 'names': names, 'rows': rows}, cb)
+
+    def cb_ids(ans):
+        impl = {'free': names, 'fixed': o['fixed_names'], 'ids': o['ids']}
+        if ans != impl:
+            res.diverge('IdManager.prepare: sorted names and literal ids (IdM.prepare vs real)', small, ans, impl, where='IdManager.prepare')
+
+    ctx.batch.add({'op': 'prepare', 'decls': [[n['name'], bool(n.get('fixed'))] for n in case['nodes'] if n['k'] == 'beta'], 'cols': list(case['columns'])}, cb_ids)
 
 
 def flags_check(ctx, res):
@@ -405,6 +440,584 @@ def square_of_nonlinear(case):
     return any(n['k'] == 'powConst' and float(n['v']) == 2.0 for n in (case or {}).get('nodes', []))
 
 
+# ============================================================================ shared helpers of the new streams
+
+FLAG_COMBOS = [(False, False, False), (True, False, False), (True, True, False), (True, False, True), (True, True, True)]
+
+
+def _vec(g, named, names):
+    if g is None:
+        return None
+    return [float(g[nm]) for nm in names] if named else [float(v) for v in g]
+
+
+def _mat(h, named, names):
+    if h is None:
+        return None
+    return [[float(h[a][b]) for b in names] for a in names] if named else [[float(v) for v in r] for r in h]
+
+
+def canon_output(out, named, names, per_obs):
+    """value(s), gradient(s), Hessian(s), BHHH(s) of any of the library's output objects as plain lists;
+    per_obs: the object is a disaggregate one (one entry per observation)"""
+    if per_obs:
+        fs = [float(v) for v in out.functions]
+        gs = None if out.gradients is None else [_vec(g, named, names) for g in out.gradients]
+        hs = None if out.hessians is None else [_mat(h, named, names) for h in out.hessians]
+        bs = None if out.bhhhs is None else [_mat(b, named, names) for b in out.bhhhs]
+        return {'f': fs, 'g': gs, 'h': hs, 'b': bs}
+    return {'f': float(out.function), 'g': _vec(out.gradient, named, names), 'h': _mat(out.hessian, named, names), 'b': _mat(out.bhhh, named, names)}
+
+
+def slot_close(a, b, tol):
+    """nested lists of floats"""
+    if isinstance(a, (list, tuple)):
+        return isinstance(b, (list, tuple)) and len(a) == len(b) and all(slot_close(x, y, tol) for x, y in zip(a, b))
+    return core.close(a, b, rel=tol, abs_=tol)
+
+
+def fd_msgs(feval, names, x, G, H, want_h=True):
+    """central finite differences (two step sizes) of the REPORTED value and gradient; feval(point, grad) ->
+    value or (value, gradient).  An entry is reported only when the two step sizes agree with each other
+    much better than with the reported derivative (so that a large truncation error is never an alarm)."""
+    msgs = []
+    for k, nm in enumerate(names):
+        fds, gfs = [], []
+        for h in (1e-5 * max(1.0, abs(x[k])), 0.5e-5 * max(1.0, abs(x[k]))):
+            up, dn = list(x), list(x)
+            up[k] += h
+            dn[k] -= h
+            if want_h:
+                fu, gu = feval(up, True)
+                fdn, gd = feval(dn, True)
+                gfs.append([(a - b) / (2 * h) for a, b in zip(gu, gd)])
+            else:
+                fu, fdn = feval(up, False), feval(dn, False)
+            fds.append((fu - fdn) / (2 * h))
+        err = abs(fds[1] - G[k])
+        scale = max(1.0, abs(fds[1]), abs(G[k]))
+        if not math.isfinite(G[k]) or (math.isfinite(fds[1]) and err > 2e-5 * scale + 1e-7 and abs(fds[0] - fds[1]) < 0.25 * err):
+            msgs.append(f'gradient entry {k} ({nm}) = {G[k]} but finite differences of the reported function = {fds[1]}')
+        if want_h:
+            for j in range(len(names)):
+                a, b = gfs[0][j], gfs[1][j]
+                err = abs(b - H[k][j])
+                scale = max(1.0, abs(b), abs(H[k][j]))
+                if not math.isfinite(H[k][j]) or (math.isfinite(b) and err > 2e-5 * scale + 1e-7 and abs(a - b) < 0.25 * err):
+                    msgs.append(f'Hessian entry ({k},{j}) = {H[k][j]} but finite differences of the reported gradient = {b}')
+    return msgs
+
+
+def safe_fd(res, small, where, feval, names, x, G, H):
+    """fd_msgs, or a violation when the derivatives cannot even be computed at the neighbouring points"""
+    try:
+        return fd_msgs(feval, names, x, G, H)
+    except Exception as e:  # noqa: BLE001
+        res.violate(f'value / gradient of a differentiable formula cannot be computed at a point next to {x}: {core.exc_kind(e)}: {e}'[:300], small, str(e)[:200],
+                    'f, g at every point of the domain', where=where)
+        return []
+
+
+def free_names(case):
+    return sorted({n['name'] for n in case['nodes'] if n['k'] == 'beta' and not n.get('fixed')})
+
+
+def where_of(case):
+    W = 'engine bioExprLinearUtility: one variable per parameter in the gradient' if repeated_linutil_beta(case) else 'derivatives (engine path)'
+    WH = 'engine bioExprPowerConstant: Hessian of a square' if (square_of_nonlinear(case) and W.startswith('derivatives')) else W
+    return W, WH
+
+
+def small_of(case, **extra):
+    out = {'nodes': case['nodes'], 'root': case['roots'][0], 'columns': case['columns'], 'rows': case['rows'], 'dict': case.get('dict', {})}
+    out.update(extra)
+    return out
+
+
+def model_rows(case, names, bv_override=None):
+    """the request of the Lean model for the rows of a case (None when outside the fragment)"""
+    bv = G.beta_values(case)
+    if bv_override:
+        bv.update(bv_override)
+    rows = []
+    try:
+        for row in G.rows_of(case):
+            rows.append({'expr': to_tree(case, case['roots'][0], row, bv),
+                         'env': {'par': [[k, f2b(v)] for k, v in bv.items()], 'var': [[k, f2b(v)] for k, v in row.items()]}})
+    except G.Reject:
+        return None
+    return {'op': 'rows', 'names': names, 'rows': rows}
+
+
+def report_fd(res, msgs, small, W, WH, prefix=''):
+    gm = [m for m in msgs if m.startswith('gradient')]
+    hm = [m for m in msgs if m.startswith('Hessian')]
+    if gm:
+        res.violate(prefix + 'reported gradient is not the derivative of the reported function: ' + gm[0], small, gm[:4], 'finite differences', where=W)
+    if hm:
+        res.violate(prefix + 'reported Hessian is not the derivative of the reported gradient: ' + hm[0], small, hm[:4], 'finite differences', where=WH)
+
+
+# ============================================================================ stream db: every flag combination
+
+
+def modes_check(res, small, case, root, db, names, o, W, WH, combos):
+    """the derivatives returned for any combination of gradient/hessian/bhhh x aggregation x named_results are
+    those returned when everything is requested (which are checked against finite differences)"""
+    d = dict(case.get('dict', {}))
+    for (g, h, b), agg, named in combos:
+        mode = {'gradient': g, 'hessian': h, 'bhhh': b, 'aggregation': agg, 'named_results': named}
+        try:
+            out = root.get_value_and_derivatives(betas=d, database=db, gradient=g, hessian=h, bhhh=b, aggregation=agg, prepare_ids=True, named_results=named)
+            got = canon_output(out, named, names, per_obs=not agg)
+        except Exception as e:  # noqa: BLE001
+            res.violate(f'derivatives of a differentiable formula cannot be computed: {core.exc_kind(e)}: {e}'[:300], {**small, 'mode': mode}, str(e)[:200],
+                        'f, g, H, BHHH', where='get_value_and_derivatives')
+            continue
+        ref = {'f': o['F'], 'g': o['G'], 'h': o['H'], 'b': o['B']} if agg else {'f': o['f'], 'g': o['g'], 'h': o['h'], 'b': o['b']}
+        present = {'g': got['g'] is not None, 'h': got['h'] is not None, 'b': got['b'] is not None}
+        if present != {'g': g, 'h': h, 'b': b}:
+            res.diverge('slots returned for the requested flags', {**small, 'mode': mode}, {'g': g, 'h': h, 'b': b}, present, where='calculator packaging')
+        for slot, tol, w in (('f', 1e-10, W), ('g', 1e-9, W), ('h', 1e-8, WH), ('b', 1e-8, W)):
+            if got[slot] is not None and not slot_close(got[slot], ref[slot], tol):
+                res.violate(f'slot {slot} returned with {mode} differs from the one returned when everything is requested', {**small, 'mode': mode},
+                            got[slot], ref[slot], where=w if slot != 'f' else 'calculator packaging')
+                break
+
+
+def all_combos():
+    return [(fl, agg, named) for fl in FLAG_COMBOS for agg in (True, False) for named in (False, True)]
+
+
+# ============================================================================ stream nodb: no database
+
+SMOOTH_NODB = ['plus', 'minus', 'times', 'divide', 'neg', 'exp', 'log', 'powConst', 'multSum', 'logLogit', 'elem', 'condSum']
+
+
+def freeze_vars(case, row=0):
+    """the same formula with every data variable replaced by its value in one row: no data variable is left"""
+    vals = dict(zip(case['columns'], case['rows'][row]))
+    nodes = []
+    for n in case['nodes']:
+        if n['k'] == 'var':
+            nodes.append({'k': 'num', 'v': float(vals[n['name']]), 'raw': False})
+        else:
+            nodes.append(dict(n))
+    return {'nodes': nodes, 'roots': list(case['roots']), 'columns': [], 'rows': [[]], 'dict': dict(case.get('dict', {}))}
+
+
+def gen_nodb(rng):
+    for _ in range(200):
+        case = G.gen_case(rng, n_ops=rng.randint(2, 8), kinds=SMOOTH_NODB)
+        if not selectors_ok(case):
+            continue
+        if any(n['k'] == 'beta' and not n.get('fixed') for n in case['nodes']):
+            return freeze_vars(case, rng.randrange(len(case['rows'])))
+    raise RuntimeError('no smooth case')
+
+
+def nodb_check(ctx, res, case, fd=True):
+    small = small_of(case, stream='nodb')
+    names = free_names(case)
+    nfree = len(names)
+    W, WH = where_of(case)
+    res.count(small, nontrivial=nfree >= 2 and G.depth(case) >= 3)
+    res.tally(f'nodb free={nfree}')
+    d = dict(case.get('dict', {}))
+    objs = G.build(case)
+    root = objs[case['roots'][0]]
+    outs = {}
+    for (g, h, b), agg, named in all_combos():
+        mode = {'gradient': g, 'hessian': h, 'bhhh': b, 'aggregation': agg, 'named_results': named, 'database': None}
+        try:
+            out = root.get_value_and_derivatives(betas=d, database=None, gradient=g, hessian=h, bhhh=b, aggregation=agg, prepare_ids=True, named_results=named)
+            outs[(g, h, b, agg, named)] = canon_output(out, named, names, per_obs=False)
+        except Exception as e:  # noqa: BLE001
+            res.violate(f'derivatives of a formula without data variables cannot be computed without a database: {core.exc_kind(e)}: {e}'[:300],
+                        {**small, 'mode': mode}, str(e)[:200], 'f, g, H, BHHH', where='get_value_and_derivatives (no database)')
+            return
+    ref = outs[(True, True, True, True, False)]
+    if ref['g'] is None or ref['h'] is None or ref['b'] is None or len(ref['g']) != nfree:
+        res.violate('requested derivatives are missing in the output', small, {k: (v is not None) for k, v in ref.items()}, 'g, h, bhhh', where='get_value_and_derivatives (no database)')
+        return
+    for (g, h, b, agg, named), got in outs.items():
+        mode = {'gradient': g, 'hessian': h, 'bhhh': b, 'aggregation': agg, 'named_results': named, 'database': None}
+        present = {'g': got['g'] is not None, 'h': got['h'] is not None, 'b': got['b'] is not None}
+        if present != {'g': g, 'h': h, 'b': b}:
+            res.diverge('slots returned for the requested flags (no database)', {**small, 'mode': mode}, {'g': g, 'h': h, 'b': b}, present, where='calculator packaging')
+            if any(req and not present[k] for k, req in (('g', g), ('h', h), ('b', b))):
+                res.violate('a requested derivative is not returned (no database)', {**small, 'mode': mode}, present, {'g': g, 'h': h, 'b': b},
+                            where='get_value_and_derivatives (no database)')
+        for slot, tol in (('f', 1e-12), ('g', 1e-12), ('h', 1e-12), ('b', 1e-12)):
+            if got[slot] is not None and not slot_close(got[slot], ref[slot], tol):
+                # one observation: aggregated = per-observation, named = positional, fewer flags = same entries
+                res.violate(f'slot {slot} returned with {mode} differs from the aggregated all-requested one although there is one observation',
+                            {**small, 'mode': mode}, got[slot], ref[slot], where='get_value_and_derivatives (no database)')
+                return
+    if not mat_close(ref['h'], [list(r) for r in zip(*ref['h'])], 1e-9):
+        res.violate('Hessian is not symmetric', small, ref['h'], 'symmetric', where=WH)
+    outer = [[x * y for y in ref['g']] for x in ref['g']]
+    if not mat_close(ref['b'], outer, 1e-8):
+        res.violate('BHHH of one observation is not the outer product of its gradient', small, ref['b'], outer, where=W)
+    # create_function without a database (positional point)
+    inits = {n['name']: n['v'] for n in case['nodes'] if n['k'] == 'beta'}
+    x = [d.get(nm, inits[nm]) for nm in names]
+    try:
+        fn = G.build(case)[case['roots'][0]].create_function(database=None, gradient=True, hessian=True, bhhh=True)
+        cf = canon_output(fn(np.array(x)), True, names, per_obs=False)
+        for slot, tol in (('f', 1e-12), ('g', 1e-12), ('h', 1e-12), ('b', 1e-12)):
+            if cf[slot] is None or not slot_close(cf[slot], ref[slot], tol):
+                res.violate(f'create_function without a database: slot {slot} differs from get_value_and_derivatives', small, cf[slot], ref[slot], where='create_function (no database)')
+                break
+    except Exception as e:  # noqa: BLE001
+        res.violate(f'create_function without a database fails: {core.exc_kind(e)}: {e}'[:300], small, str(e)[:200], 'f, g, H, BHHH', where='create_function (no database)')
+    if fd:
+        def feval(pt, grad):
+            out = root.get_value_and_derivatives(betas={**d, **dict(zip(names, pt))}, database=None, gradient=grad, hessian=False, bhhh=False, aggregation=False, prepare_ids=True)
+            return (float(out.function), [float(v) for v in out.gradient]) if grad else float(out.function)
+
+        report_fd(res, safe_fd(res, small, 'get_value_and_derivatives (no database)', feval, names, x, ref['g'], ref['h']), small, W, WH, prefix='(no database) ')
+    req = model_rows(case, names)
+    if req is None:
+        res.tally('not_in_fragment')
+        return
+
+    def cb(ans):
+        fl = lambda v: [b2f(t) for t in v]  # noqa: E731
+        if not core.close(b2f(ans['F']), ref['f'], rel=1e-9) or not vec_close(fl(ans['G']), ref['g'], TOL_G):
+            res.diverge('value/gradient without a database (model vs engine)', small, [b2f(ans['F']), fl(ans['G'])], [ref['f'], ref['g']], where=W)
+        if not mat_close([fl(r) for r in ans['H']], ref['h'], TOL_H):
+            res.diverge('Hessian without a database (model vs engine)', small, [fl(r) for r in ans['H']], ref['h'], where=WH)
+        if not mat_close([fl(r) for r in ans['B']], ref['b'], TOL_H):
+            res.diverge('BHHH without a database (model vs engine)', small, [fl(r) for r in ans['B']], ref['b'], where=W)
+
+    ctx.batch.add(req, cb)
+
+
+# ============================================================================ stream clash: one name, two elementary expressions
+
+
+def _rename_beta(case, old, new):
+    c = {**case, 'nodes': [dict(n) for n in case['nodes']], 'dict': dict(case.get('dict', {}))}
+    for n in c['nodes']:
+        if n['k'] == 'beta' and n['name'] == old:
+            n['name'] = new
+    if old in c['dict']:
+        c['dict'][new] = c['dict'].pop(old)
+    return c
+
+
+def clash_variants(rng, case):
+    """(variant, case', refused expected) - case' is the same formula with one name used twice, or nearly"""
+    out = []
+    free = [n['name'] for n in case['nodes'] if n['k'] == 'beta' and not n.get('fixed')]
+    fixed = [n['name'] for n in case['nodes'] if n['k'] == 'beta' and n.get('fixed')]
+    used = [n['name'] for n in case['nodes'] if n['k'] == 'var']
+    unused = [c for c in case['columns'] if c not in used]
+    b = rng.choice(free)
+    if used:
+        out.append(('free parameter named like a column used in the formula', _rename_beta(case, b, rng.choice(used)), True))
+    if unused:
+        out.append(('free parameter named like a column not used in the formula', _rename_beta(case, b, rng.choice(unused)), True))
+    else:
+        c2 = _rename_beta(case, b, 'cost')
+        c2['columns'] = list(case['columns']) + ['cost']
+        c2['rows'] = [list(r) + [float(i) + 0.5] for i, r in enumerate(case['rows'])]
+        out.append(('free parameter named like an extra column not used in the formula', c2, True))
+    if fixed:
+        out.append(('fixed parameter named like a column', _rename_beta(case, rng.choice(fixed), rng.choice(case['columns'])), True))
+    # the same name free and fixed: root' = root + fixed_beta(name)
+    c3 = {**case, 'nodes': [dict(n) for n in case['nodes']], 'dict': dict(case.get('dict', {}))}
+    c3['nodes'].append({'k': 'beta', 'name': b, 'v': 0.75, 'fixed': True})
+    c3['nodes'].append({'k': 'plus', 'c': [case['roots'][0], len(c3['nodes']) - 1]})
+    c3['roots'] = [len(c3['nodes']) - 1]
+    out.append(('one name for a free and a fixed parameter', c3, True))
+    # near misses: accepted
+    col = rng.choice(case['columns'])
+    near = rng.choice([col + '_', col.lower() if col.lower() != col else col.upper(), ' ' + col, col + '1'])
+    if near not in case['columns'] and near not in free + fixed:
+        out.append(('free parameter named almost like a column', _rename_beta(case, b, near), False))
+    return out
+
+
+def entry_points(case, names):
+    """feval(point, full) per public entry point; building may raise"""
+    d = dict(case.get('dict', {}))
+
+    def gvd():
+        root = G.build(case)[case['roots'][0]]
+        db = G.database(case)
+
+        def feval(pt, full):
+            out = root.get_value_and_derivatives(betas={**d, **dict(zip(names, pt))}, database=db, gradient=True, hessian=full, bhhh=False, aggregation=True, prepare_ids=True)
+            return canon_output(out, False, names, per_obs=False)
+
+        return feval
+
+    def cfun():
+        root = G.build(case)[case['roots'][0]]
+        db = G.database(case)
+        fns = {full: root.create_function(database=db, gradient=True, hessian=full, bhhh=False) for full in (False, True)}
+        reported = list(root.id_manager.free_betas.names)
+        if reported != names:
+            raise G.Reject(f'reported names {reported}')
+
+        def feval(pt, full):
+            return canon_output(fns[full](np.array(pt, dtype=float)), True, names, per_obs=False)
+
+        return feval
+
+    def biogeme():
+        import biogeme.biogeme as bio
+
+        root = G.build(case)[case['roots'][0]]
+        db = G.database(case)
+        with core.scratch():
+            B = bio.BIOGEME(db, root)
+            B.modelName = 'c02'
+        if list(B.free_beta_names) != names:
+            raise G.Reject(f'reported names {list(B.free_beta_names)}')
+
+        def feval(pt, full):
+            r = B.calculate_likelihood_and_derivatives(np.array(pt, dtype=float), scaled=False, hessian=full, bhhh=False)
+            return canon_output(r, False, names, per_obs=False)
+
+        return feval
+
+    return {'get_value_and_derivatives': gvd, 'create_function': cfun, 'BIOGEME.calculate_likelihood_and_derivatives': biogeme}
+
+
+def clash_check(ctx, res, case, variant):
+    """property oracle: either the specification is refused, or what is reported are true derivatives"""
+    small = small_of(case, stream='clash', variant=variant)
+    names = free_names(case)
+    W, WH = where_of(case)
+    res.count(small, nontrivial=len(names) >= 2)
+    res.tally('clash:' + variant)
+    bv = G.beta_values(case)
+    x = [bv[nm] for nm in names]
+    status = {}
+    for ep, mk in entry_points(case, names).items():
+        try:
+            feval = mk()
+            o = feval(x, True)
+        except Exception as e:  # noqa: BLE001
+            status[ep] = 'refused:' + core.exc_kind(e)
+            continue
+        status[ep] = 'accepted'
+        if o['g'] is None or o['h'] is None or len(o['g']) != len(names):
+            res.violate(f'{ep}: accepted specification with a name used twice and the derivatives are incomplete', {**small, 'entry': ep}, o, 'refusal or g, H', where='IdManager.prepare')
+            continue
+        def fe(pt, grad, feval=feval):
+            r = feval(pt, False)
+            return (r['f'], r['g']) if grad else r['f']
+
+        msgs = safe_fd(res, {**small, 'entry': ep}, 'IdManager.prepare', fe, names, x, o['g'], o['h'])
+        if msgs:
+            res.violate(f'{ep}: specification with one name for two elementary expressions ({variant}) is accepted and the reported derivatives are wrong: ' + msgs[0],
+                        {**small, 'entry': ep}, msgs[:4], 'refusal, or finite differences of the reported function', where='IdManager.prepare')
+
+    decls = [[n['name'], bool(n.get('fixed'))] for n in case['nodes'] if n['k'] == 'beta']
+
+    def cb(ans, status=dict(status)):
+        exp = 'refused:BiogemeError' if 'refused' in ans else 'accepted'
+        for ep, st in status.items():
+            if st != exp:
+                res.diverge(f'IdManager.prepare on a specification with a repeated name ({variant}), entry {ep}', small, ans, st, where='IdManager.prepare')
+
+    ctx.batch.add({'op': 'prepare', 'decls': decls, 'cols': list(case['columns'])}, cb)
+
+
+# ============================================================================ stream fdtool: tools.derivatives
+
+FD_SPECIAL = [0.0, 0.0, 1.0, -1.0, 0.5, -0.5, 0.9375, -0.0625, 1.0625, -1.5, 2.5, -3.0]
+
+
+def regular_at(case, names, x):
+    """independent evaluator: the formula is finite at x and around it, on every row"""
+    bv = G.beta_values(case)
+    pts = [list(x)]
+    for i in range(len(x)):
+        for dlt in (1e-3, -1e-3):
+            p = list(x)
+            p[i] += dlt * max(1.0, abs(p[i]))
+            pts.append(p)
+    try:
+        for p in pts:
+            b = {**bv, **dict(zip(names, p))}
+            for row in G.rows_of(case):
+                v = G.oracle(case, case['roots'][0], b, row)
+                if not math.isfinite(v) or abs(v) > 1e8:
+                    return False
+    except (G.Reject, OverflowError, ValueError, ZeroDivisionError):
+        return False
+    return True
+
+
+def fd_points(rng, case, names):
+    inits = {n['name']: n['v'] for n in case['nodes'] if n['k'] == 'beta'}
+    d = case.get('dict', {})
+    own = [float(d.get(nm, inits[nm])) for nm in names]
+    cands = [own, [0.0] * len(names), [rng.choice(FD_SPECIAL) for _ in names]]
+    z = list(own)
+    z[rng.randrange(len(z))] = 0.0
+    cands.append(z)
+    out = []
+    for c in cands:
+        if c not in out and regular_at(case, names, c):
+            out.append(c)
+    return out
+
+
+def spec_step(xi):
+    """size of the step documented for findiff_g / findiff_h (tau = 1e-7)"""
+    return 1e-7 * max(1.0, abs(xi))
+
+
+def tool_oracle(res, small, what, feval, x, f0, g0, h0, gdiff, hdiff, W, WH, where):
+    """the self-check must confirm derivatives that are true: its discrepancy is finite and not larger than the
+    genuine forward-difference error with a step of the documented size (both directions), 10x margin + 1e-5 scale"""
+    n = len(x)
+    bad_g, bad_h = [], []
+    for i in range(n):
+        s = spec_step(x[i])
+        eg, eh = [], []
+        for sg in (s, -s):
+            p = list(x)
+            p[i] += sg
+            fp, gp = feval(p, True)
+            eg.append(abs(g0[i] - (fp - f0) / sg))
+            eh.append([abs(h0[r][i] - (gp[r] - g0[r]) / sg) for r in range(n)])
+        bound = 10 * (eg[0] + eg[1]) + 1e-5 * max(1.0, abs(f0), abs(g0[i]))
+        if not math.isfinite(gdiff[i]) or abs(gdiff[i]) > bound:
+            bad_g.append(f'gdiff[{i}] = {gdiff[i]} at coordinate value {x[i]} (analytical {g0[i]}, genuine forward-difference errors {eg[0]:.3g}, {eg[1]:.3g})')
+        for r in range(n):
+            bound = 10 * (eh[0][r] + eh[1][r]) + 1e-5 * max(1.0, abs(g0[r]), abs(h0[r][i]))
+            if not math.isfinite(hdiff[r][i]) or abs(hdiff[r][i]) > bound:
+                bad_h.append(f'hdiff[{r}][{i}] = {hdiff[r][i]} at coordinate value {x[i]} (analytical {h0[r][i]}, genuine forward-difference errors {eh[0][r]:.3g}, {eh[1][r]:.3g})')
+    if bad_g:
+        res.violate(f'{what}: the finite-difference self-check does not confirm a gradient that is the derivative of the reported value: ' + bad_g[0], small, bad_g[:4],
+                    'finite, within the forward-difference error', where=where)
+    if bad_h:
+        res.violate(f'{what}: the finite-difference self-check does not confirm a Hessian that is the derivative of the reported gradient: ' + bad_h[0], small, bad_h[:4],
+                    'finite, within the forward-difference error', where=where)
+
+
+def fdtool_check(ctx, res, case, x, with_biogeme=False, logg=False):
+    from biogeme.tools.derivatives import check_derivatives, findiff_g, findiff_h
+
+    names = free_names(case)
+    n = len(names)
+    small = small_of(case, stream='fdtool', x=list(x))
+    W, WH = where_of(case)
+    TW = 'tools.derivatives'
+    res.count(small, nontrivial=n >= 2 and any(v == 0.0 for v in x))
+    res.tally('fdtool zero coordinate' if any(v == 0.0 for v in x) else 'fdtool no zero coordinate')
+    root = G.build(case)[case['roots'][0]]
+    db = G.database(case)
+    try:
+        fn = root.create_function(database=db, gradient=True, hessian=True, bhhh=False)
+        reported = list(root.id_manager.free_betas.names)
+        out0 = canon_output(fn(np.array(x)), True, names, per_obs=False)
+    except Exception as e:  # noqa: BLE001
+        res.violate(f'derivatives of a differentiable formula cannot be computed: {core.exc_kind(e)}: {e}'[:300], small, str(e)[:200], 'f, g, H', where='create_function')
+        return
+    if reported != names:
+        res.diverge('reported free names', small, names, reported)
+        return
+    f0, g0, h0 = out0['f'], out0['g'], out0['h']
+
+    def feval(pt, grad):
+        r = canon_output(fn(np.array(pt, dtype=float)), True, names, per_obs=False)
+        return (r['f'], r['g']) if grad else r['f']
+
+    # (a) the derivatives at this point are true (central differences of the reported function)
+    msgs = safe_fd(res, small, 'create_function', feval, names, list(x), g0, h0)
+    report_fd(res, msgs, small, W, WH, prefix='(create_function, point with special coordinates) ')
+    true_g = not any(m.startswith('gradient') for m in msgs)
+    true_h = not any(m.startswith('Hessian') for m in msgs)
+    # (b) the tools, on a recording wrapper of the real function
+    calls = []
+
+    def rec(p):
+        out = fn(p)
+        c = canon_output(out, True, names, per_obs=False)
+        calls.append({'p': [float(v) for v in p], 'f': c['f'], 'g': c['g'], 'h': c['h']})
+        return out
+
+    try:
+        g_num = [float(v) for v in findiff_g(rec, np.array(x))]
+        pts_g = [c['p'] for c in calls]
+        k = len(calls)
+        h_num = [[float(v) for v in r] for r in findiff_h(rec, np.array(x))]
+        pts_h = [c['p'] for c in calls[k:]]
+        cf, cg, ch, gdiff, hdiff = check_derivatives(rec, np.array(x), names=None if logg else names, logg=logg)
+        cg, gdiff = [float(v) for v in cg], [float(v) for v in gdiff]
+        ch, hdiff = [[float(v) for v in r] for r in ch], [[float(v) for v in r] for r in hdiff]
+    except Exception as e:  # noqa: BLE001
+        res.violate(f'the finite-difference self-check fails on a differentiable formula: {core.exc_kind(e)}: {e}'[:300], small, str(e)[:200], 'f, g, h, gdiff, hdiff', where=TW)
+        return
+    if not (core.close(float(cf), f0, rel=1e-12) and vec_close(cg, g0, 1e-12) and mat_close(ch, h0, 1e-12)):
+        res.violate('check_derivatives reports another value / gradient / Hessian than the function at x', small, [float(cf), cg, ch], [f0, g0, h0], where=TW)
+    # gdiff / hdiff are 'analytical minus finite differences' (docstring)
+    sc = max(1.0, abs(f0), max([abs(v) for v in g0] + [0.0]))
+    if not all(slot_close(a, b - c, 1e-8 * sc) for a, b, c in zip(gdiff, g0, g_num)):
+        res.violate('gdiff is not the analytical gradient minus findiff_g', small, gdiff, [b - c for b, c in zip(g0, g_num)], where=TW)
+    if not all(slot_close(hdiff[r][i], h0[r][i] - h_num[r][i], 1e-8 * sc * 10) for r in range(n) for i in range(n)):
+        res.violate('hdiff is not the analytical Hessian minus findiff_h', small, hdiff, [[h0[r][i] - h_num[r][i] for i in range(n)] for r in range(n)], where=TW)
+    if true_g and true_h:
+        try:
+            tool_oracle(res, small, 'tools.derivatives.check_derivatives', feval, list(x), f0, g0, h0, gdiff, hdiff, W, WH, TW)
+        except Exception as e:  # noqa: BLE001
+            res.violate(f'value / gradient of a differentiable formula cannot be computed next to {list(x)}: {core.exc_kind(e)}: {e}'[:300], small, str(e)[:200], 'f, g', where='create_function')
+    # (c) the model on the recorded function
+    table, seen = [], set()
+    for c in calls:
+        key = tuple(c['p'])
+        if key not in seen:
+            seen.add(key)
+            table.append({'p': [f2b(v) for v in c['p']], 'f': f2b(c['f']), 'g': [f2b(v) for v in c['g']], 'h': [[f2b(v) for v in r] for r in c['h']]})
+
+    def cb(ans):
+        fl = lambda v: [b2f(t) for t in v]  # noqa: E731
+        mp = [fl(p) for p in ans['points']]
+        if mp != pts_g or mp != pts_h:
+            res.diverge('points at which findiff_g / findiff_h evaluate the function (FinDiff.evalPoints vs real)', small, mp, {'findiff_g': pts_g, 'findiff_h': pts_h}, where=TW)
+        t = 1e-9 * sc
+        if not slot_close(fl(ans['g']), g_num, t):
+            res.diverge('findiff_g (FinDiff.findiffG vs real)', small, fl(ans['g']), g_num, where=TW)
+        if not slot_close([fl(r) for r in ans['h']], h_num, t * 10):
+            res.diverge('findiff_h (FinDiff.findiffH vs real)', small, [fl(r) for r in ans['h']], h_num, where=TW)
+        if not (slot_close(fl(ans['gdiff']), gdiff, t) and slot_close([fl(r) for r in ans['hdiff']], hdiff, t * 10)
+                and core.close(b2f(ans['cf']), float(cf), rel=1e-12) and slot_close(fl(ans['cg']), cg, 1e-12)):
+            res.diverge('check_derivatives (FinDiff.checkDerivatives vs real)', small, [fl(ans['gdiff']), [fl(r) for r in ans['hdiff']]], [gdiff, hdiff], where=TW)
+
+    ctx.batch.add({'op': 'findiff', 'x': [f2b(v) for v in x], 'table': table}, cb)
+    # (d) BIOGEME.check_derivatives
+    if with_biogeme:
+        import biogeme.biogeme as bio
+
+        try:
+            with core.scratch():
+                B = bio.BIOGEME(G.database(case), G.build(case)[case['roots'][0]])
+                B.modelName = 'c02'
+                bf, bg, bh, bgd, bhd = B.check_derivatives(list(x), verbose=logg)
+
+                def beval(pt, grad):
+                    r = B.calculate_likelihood_and_derivatives(np.array(pt, dtype=float), scaled=False, hessian=False, bhhh=False)
+                    return (float(r.function), [float(v) for v in r.gradient]) if grad else float(r.function)
+
+                bg, bgd = [float(v) for v in bg], [float(v) for v in bgd]
+                bh, bhd = [[float(v) for v in r] for r in bh], [[float(v) for v in r] for r in bhd]
+                if list(B.free_beta_names) != names or not (core.close(float(bf), f0, rel=1e-10) and vec_close(bg, g0, 1e-9) and mat_close(bh, h0, 1e-8)):
+                    res.violate('BIOGEME.check_derivatives reports another value / gradient / Hessian than the expression-level function', small, [float(bf), bg, bh], [f0, g0, h0],
+                                where='BIOGEME.check_derivatives')
+                elif true_g and true_h:
+                    tool_oracle(res, small, 'BIOGEME.check_derivatives', beval, list(x), float(bf), bg, bh, bgd, bhd, W, WH, 'BIOGEME.check_derivatives')
+        except Exception as e:  # noqa: BLE001
+            res.violate(f'BIOGEME.check_derivatives fails on a differentiable formula: {core.exc_kind(e)}: {e}'[:300], small, str(e)[:200], 'f, g, h, gdiff, hdiff', where='BIOGEME.check_derivatives')
+
+
 MATCHERS = {'square_of_nonlinear': square_of_nonlinear, 'integrate_two_params': lambda case: 'Integrate' in str((case or {}).get('formula', '')),
             'repeated_linutil_beta': repeated_linutil_beta}
 
@@ -427,30 +1040,111 @@ CORPUS = [
 ]
 
 
+def new_streams(ctx, res, rng, n_nodb, n_clash, n_fd, fd_every=1):
+    for i in range(n_nodb):
+        nodb_check(ctx, res, gen_nodb(rng), fd=(i % fd_every == 0))
+        if len(res.violations) > 10:
+            return
+    for i in range(n_clash):
+        case = gen_smooth(rng)
+        for variant, c2, refused in clash_variants(rng, case):
+            if refused:
+                clash_check(ctx, res, c2, variant)
+            else:
+                res.tally('clash:' + variant)
+                check_case(ctx, res, c2, fd=True, combos=[])
+        if len(res.violations) > 10:
+            return
+    for i in range(n_fd):
+        case = gen_smooth(rng)
+        names = free_names(case)
+        for j, x in enumerate(fd_points(rng, case, names)):
+            fdtool_check(ctx, res, case, x, with_biogeme=(j == 1 or i % 4 == 0), logg=(i % 5 == 0 and j == 0))
+        if len(res.violations) > 10:
+            return
+
+
+# minimised inputs of the streams nodb / clash / fdtool (run first)
+CORPUS_NODB = [
+    # F-C02-1: two free parameters, no database, per-observation mode
+    {'nodes': [{'k': 'beta', 'name': 'b2', 'v': 0.5, 'fixed': False}, {'k': 'beta', 'name': 'b10', 'v': -0.25, 'fixed': False},
+               {'k': 'beta', 'name': 'a', 'v': 2.0, 'fixed': True}, {'k': 'times', 'c': [0, 1]}, {'k': 'exp', 'c': [3]}, {'k': 'times', 'c': [2, 0]},
+               {'k': 'times', 'c': [5, 0]}, {'k': 'plus', 'c': [4, 6]}, {'k': 'plus', 'c': [7, 1]}],
+     'roots': [8], 'columns': [], 'rows': [[]], 'dict': {'b10': 0.75}},
+    # one free parameter whose gradient is exactly 0 at the point
+    {'nodes': [{'k': 'beta', 'name': 'b2', 'v': 0.0, 'fixed': False}, {'k': 'times', 'c': [0, 0]}], 'roots': [1], 'columns': [], 'rows': [[]], 'dict': {}},
+]
+_LOGIT = {'nodes': [{'k': 'beta', 'name': 'b_x', 'v': 0.0, 'fixed': False}, {'k': 'beta', 'name': 'asc', 'v': 0.0, 'fixed': False}, {'k': 'beta', 'name': 'b_y', 'v': 0.0, 'fixed': False},
+                    {'k': 'var', 'name': 'x1'}, {'k': 'var', 'name': 'x2'}, {'k': 'times', 'c': [0, 3]}, {'k': 'times', 'c': [2, 4]}, {'k': 'plus', 'c': [1, 5]}, {'k': 'plus', 'c': [7, 6]},
+                    {'k': 'neg', 'c': [8]}, {'k': 'exp', 'c': [9]}, {'k': 'num', 'v': 1.0, 'raw': False}, {'k': 'plus', 'c': [11, 10]}, {'k': 'log', 'c': [12]}, {'k': 'neg', 'c': [13]}],
+          'roots': [14], 'columns': ['x1', 'x2', 'cost'], 'rows': [[1.0, 0.5, 3.0], [2.0, -1.0, 1.0], [3.0, 2.0, 2.0]], 'dict': {}}
+CORPUS_FD = [(_LOGIT, [0.0, 0.0, 0.0]), (_LOGIT, [0.25, 0.0, -0.5]), (_LOGIT, [1.0, -1.0, 2.5])]
+
+
+def corpus_clash():
+    out = []
+    for old, new in (('b_x', 'cost'), ('b_x', 'x1')):
+        c = _rename_beta(_LOGIT, old, new)
+        out.append(('free parameter named like a column (corpus)', c))
+    return out
+
+
 def check(ctx) -> Result:
-    res = Result(rule=RULE, tolerance=f'gradient {TOL_G}, Hessian {TOL_H} (relative/absolute); finite differences 2e-5')
+    res = Result(rule=RULE, tolerance=f'gradient {TOL_G}, Hessian {TOL_H} (relative/absolute); finite differences 2e-5; '
+                 'self-check discrepancy <= 10 x genuine forward-difference error + 1e-5 scale; model of findiff on recorded values 1e-9 scale')
     rng = ctx.rng
     for c in CORPUS:
         check_case(ctx, res, c)
+    for c in CORPUS_NODB:
+        nodb_check(ctx, res, c)
+    for variant, c in corpus_clash():
+        clash_check(ctx, res, c, variant)
+    for c, x in CORPUS_FD:
+        fdtool_check(ctx, res, c, x, with_biogeme=True, logg=(x[0] == 0.25))
     for i in range(ctx.n(150, 2500)):
-        check_case(ctx, res, gen_smooth(rng), fd=(i % 3 == 0) or not ctx.quick)
+        combos = all_combos() if (i % 5 == 0) else rng.sample(all_combos(), 3)
+        check_case(ctx, res, gen_smooth(rng), fd=(i % 3 == 0) or not ctx.quick, combos=combos)
         if len(res.violations) > 10:
             break
+    new_streams(ctx, res, rng, ctx.n(60, 600), ctx.n(25, 250), ctx.n(40, 400), fd_every=2 if ctx.quick else 1)
     flags_check(ctx, res)
     integrate_check(ctx, res)
     ctx.batch.flush()
     return res
 
 
+def _listed(ctx, v):
+    """the violation is a listed known finding (same rule as vcheck applies to the results of check)"""
+    for f in getattr(ctx, 'findings', None) or []:
+        if f.get('kind') != 'known' or not v.get('where') or f.get('where') != v.get('where'):
+            continue
+        pred = MATCHERS.get(f.get('match', ''))
+        if f.get('match') and pred is None:
+            continue
+        if pred is None or pred(v.get('case')):
+            return True
+    return False
+
+
 def search(ctx, res, broken):
     rng = core.rng_for('C02-search', ctx.seed)
     r2 = Result()
-    for _ in range(200):
-        check_case(ctx, r2, gen_smooth(rng), fd=True)
-        if r2.violations:
-            break
+    for c in CORPUS_NODB:
+        nodb_check(ctx, r2, c)
+    for variant, c in corpus_clash():
+        clash_check(ctx, r2, c, variant)
+    for c, x in CORPUS_FD:
+        fdtool_check(ctx, r2, c, x, with_biogeme=True)
+    new = lambda: [v for v in r2.violations if not _listed(ctx, v)]  # noqa: E731
+    if not new():
+        for _ in range(200):
+            check_case(ctx, r2, gen_smooth(rng), fd=True)
+            if new():
+                break
+    if not new():
+        new_streams(ctx, r2, rng, 100, 40, 80)
     ctx.batch.items.clear()
-    res.violations.extend(r2.violations[:3])
+    res.violations.extend(new()[:3])
 
 
 def replay(ctx, obj):
@@ -463,6 +1157,14 @@ def replay(ctx, obj):
         return {'property_fails': False, 'note': 'no concrete input in this replay file'}
     c = {'nodes': case['nodes'], 'roots': [case['root']], 'columns': case['columns'], 'rows': case['rows'], 'dict': case.get('dict', {})}
     r = Result()
-    check_case(ctx, r, c)
+    stream = case.get('stream', 'db')
+    if stream == 'nodb':
+        nodb_check(ctx, r, c)
+    elif stream == 'clash':
+        clash_check(ctx, r, c, case.get('variant', ''))
+    elif stream == 'fdtool':
+        fdtool_check(ctx, r, c, case['x'], with_biogeme=True)
+    else:
+        check_case(ctx, r, c)
     ctx.batch.items.clear()
     return {'property_fails': bool(r.violations), 'violations': r.violations[:3]}
